@@ -1,6 +1,7 @@
 (* C13 -- Stave-level ALPIDE frame checks are exact and ignore hit content.  Property theorems only. *)
 From Coq Require Import List NArith Bool.
 From FP Require Import Model.Base Model.ItsWords Model.Alpide Model.CdpRunning Spec.AlpideEnc Proofs.C13_lane Proofs.C13_frame.
+From FP Require Import Proofs.C13_fatal.
 From FP Require Gen.Facts.
 Import ListNotations.
 Open Scope N_scope.
@@ -101,6 +102,18 @@ Theorem C13_refuted_double_announcement :
   frame_lanes_valid L_Inner fr (add_fatal_lanes true (Some [1]) [1]) = Ok None.
 Proof. exact c13_refuted_double_announcement. Qed.
 
+(* the list of lanes in FATAL state is a SET over any sequence of frames: no lane twice, exactly the lanes that announced -- in
+   whatever order and however often (lane A, lane B, lane A again); instantiated with the fact re-read from add_fatal_lanes *)
+Theorem C13_fatal_lanes_form_a_set : forall news : list (list N),
+  let final := fold_left (add_fatal_lanes Gen.Facts.fatal_lanes_deduplicated) news None in
+  NoDup (known_of final) /\ forall y, In y (known_of final) <-> exists n, In n news /\ In y n.
+Proof. exact (fatal_lanes_after_frames_when Gen.Facts.fatal_lanes_deduplicated eq_refl eq_refl). Qed.
+(* a list that only drops consecutive repeats keeps [3; 4; 3] *)
+Theorem C13_refuted_consecutive_dedup :
+  dedup_consecutive (dedup_consecutive (dedup_consecutive [3] ++ [4]) ++ [3]) = [3; 4; 3] /\
+  known_of (fold_left (add_fatal_lanes true) [[3]; [4]; [3]] None) = [3; 4].
+Proof. exact refuted_consecutive_dedup. Qed.
+
 (* the behaviour of the pinned commit for a fatal lane number that is no inner barrel lane (defect F17): a crash; now: ignored *)
 Theorem C13_refuted_fatal_lane_beyond_barrel :
   inner_groupings_gen false [0; 1] [9] = Panic SITE_fatal_lane_number /\ inner_groupings_gen true [0; 1] [9] = Ok (Some 2) /\
@@ -122,3 +135,5 @@ Print Assumptions C13_lane_count_rule.
 Print Assumptions C13_refuted_announcing_frame.
 Print Assumptions C13_refuted_double_announcement.
 Print Assumptions C13_refuted_fatal_lane_beyond_barrel.
+Print Assumptions C13_fatal_lanes_form_a_set.
+Print Assumptions C13_refuted_consecutive_dedup.
